@@ -23,6 +23,7 @@ package codec
 
 import (
 	"fmt"
+	"go/constant"
 	"go/token"
 	"go/types"
 
@@ -59,7 +60,15 @@ func blockOf(v ssa.Value) *ssa.BasicBlock {
 }
 
 // loopShape recognises the loop headed by hb (without counting it).
-func loopShape(hb *ssa.BasicBlock) (*Loop, string) {
+func loopShape(hb *ssa.BasicBlock) (*Loop, string) { return loopShapeF(hb, nil) }
+
+// loopShapeF: isFail (optional) decides which blocks outside the loop count as
+// failing exits; by default those from which every path panics or returns a
+// non-nil error.
+func loopShapeF(hb *ssa.BasicBlock, isFail func(*ssa.BasicBlock, map[*ssa.BasicBlock]bool) bool) (*Loop, string) {
+	if isFail == nil {
+		isFail = func(b *ssa.BasicBlock, loop map[*ssa.BasicBlock]bool) bool { return failOnly(b, loop, 0) }
+	}
 	lp := &Loop{Header: hb, entry: -1, back: -1, blocks: map[*ssa.BasicBlock]bool{hb: true}}
 	for i, p := range hb.Preds {
 		if hb.Dominates(p) {
@@ -98,7 +107,7 @@ func loopShape(hb *ssa.BasicBlock) (*Loop, string) {
 			continue
 		}
 		for _, s := range b.Succs {
-			if !lp.blocks[s] && !failOnly(s, lp.blocks, 0) {
+			if !lp.blocks[s] && !isFail(s, lp.blocks) {
 				return nil, "the loop can be left from its body (break / return of a result)"
 			}
 		}
@@ -262,6 +271,21 @@ func scopeFrame(v ssa.Value, fr *Frame) *Frame {
 // that is written only by one initialising store per constant index and is
 // otherwise only read element-wise.
 func tableStores(x ssa.Value) (map[int64]*ssa.Store, bool) {
+	out, _, ok := tableStores2(x, 0)
+	return out, ok
+}
+
+// tableStores2 also accepts a table variable that is initialised by one
+// whole-array copy of a literal (fields := [...][]byte{…} when fields is
+// indexed by a variable: go/ssa builds the literal in a temporary and copies
+// it); ready is that copy (nil when the literal is built in place): the table
+// holds its values only after it.
+func tableStores2(x ssa.Value, depth int) (map[int64]*ssa.Store, *ssa.Store, bool) {
+	out, ready, ok := tableStores1(x, depth)
+	return out, ready, ok
+}
+
+func tableStores1(x ssa.Value, depth0 int) (map[int64]*ssa.Store, *ssa.Store, bool) {
 	var al *ssa.Alloc
 	switch t := x.(type) {
 	case *ssa.Alloc:
@@ -269,19 +293,20 @@ func tableStores(x ssa.Value) (map[int64]*ssa.Store, bool) {
 	case *ssa.Slice:
 		a, ok := t.X.(*ssa.Alloc)
 		if !ok || t.Max != nil || t.High != nil {
-			return nil, false
+			return nil, nil, false
 		}
 		if lo, ok := optConst(t.Low, 0); !ok || lo != 0 {
-			return nil, false
+			return nil, nil, false
 		}
 		al = a
 	default:
-		return nil, false
+		return nil, nil, false
 	}
 	if _, isArr := derefT(al.Type()).Underlying().(*types.Array); !isArr || al.Referrers() == nil {
-		return nil, false
+		return nil, nil, false
 	}
 	out := map[int64]*ssa.Store{}
+	var ready *ssa.Store
 	depth := 0
 	var readOnlyElems func(v ssa.Value, stores bool) bool
 	readOnlyElems = func(v ssa.Value, stores bool) bool {
@@ -309,6 +334,31 @@ func tableStores(x ssa.Value) (map[int64]*ssa.Store, bool) {
 						return false
 					}
 				}
+			case *ssa.Store:
+				// the one whole-array copy that initialises the variable from a literal
+				if !stores || y.Addr != v || ready != nil || depth0 > 0 {
+					return false
+				}
+				ld, isLd := y.Val.(*ssa.UnOp)
+				if !isLd || ld.Op != token.MUL {
+					return false
+				}
+				src, _, ok := tableStores1(ld.X, depth0+1)
+				if !ok {
+					return false
+				}
+				for _, st := range src {
+					if !instrBefore(st, ld) {
+						return false
+					}
+				}
+				for k, st := range src {
+					if _, dup := out[k]; dup {
+						return false
+					}
+					out[k] = st
+				}
+				ready = y
 			case *ssa.Slice:
 				if !stores {
 					return false
@@ -320,8 +370,13 @@ func tableStores(x ssa.Value) (map[int64]*ssa.Store, bool) {
 					return false
 				}
 				for _, rr := range *y.Referrers() {
-					switch rr.(type) {
+					switch q := rr.(type) {
 					case *ssa.Index, *ssa.DebugRef:
+					case *ssa.Store:
+						// the temporary literal copied into its variable (checked by the caller)
+						if depth0 == 0 || q.Val != ssa.Value(y) {
+							return false
+						}
 					default:
 						return false
 					}
@@ -359,7 +414,7 @@ func tableStores(x ssa.Value) (map[int64]*ssa.Store, bool) {
 		return true
 	}
 	if !readOnlyElems(al, true) {
-		return nil, false
+		return nil, nil, false
 	}
 	for _, r := range *al.Referrers() {
 		sl, ok := r.(*ssa.Slice)
@@ -367,16 +422,24 @@ func tableStores(x ssa.Value) (map[int64]*ssa.Store, bool) {
 			continue
 		}
 		if sl.Max != nil || sl.High != nil || sl.Referrers() == nil {
-			return nil, false
+			return nil, nil, false
 		}
 		if lo, ok := optConst(sl.Low, 0); !ok || lo != 0 {
-			return nil, false
+			return nil, nil, false
 		}
 		if !readOnlyElems(sl, false) {
-			return nil, false
+			return nil, nil, false
 		}
 	}
-	return out, true
+	if ready != nil && len(out) > 0 {
+		// no element of the variable may be stored separately as well
+		for _, st := range out {
+			if ia, ok := st.Addr.(*ssa.IndexAddr); ok && ia.X == ssa.Value(al) {
+				return nil, nil, false
+			}
+		}
+	}
+	return out, ready, true
 }
 
 // elemLoad: v = *(&table[i]) (or arr[i] of the array value *table) with i a
@@ -421,8 +484,8 @@ func elemLoad(v ssa.Value, fr *Frame) (ssa.Value, *Frame, bool) {
 		}
 		tblX, tfr, read = arg, pf, cf.Call
 	}
-	tbl, ok := tableStores(tblX)
-	if !ok {
+	tbl, ready, ok := tableStores2(tblX, 0)
+	if !ok || (ready != nil && !instrBefore(ready, read)) {
 		return nil, nil, false
 	}
 	z := NewSym()
@@ -458,7 +521,7 @@ func (s *Streamer) loop(hb *ssa.BasicBlock) (*Loop, string) {
 	if lp, ok := s.loops[hb]; ok {
 		return lp, ""
 	}
-	lp, why := loopShape(hb)
+	lp, why := loopShapeF(hb, s.isFail)
 	if why != "" {
 		return nil, why
 	}
@@ -548,4 +611,267 @@ func (s *Streamer) bodyLoop(b *ssa.BasicBlock) *Loop {
 		}
 	}
 	return found
+}
+
+// LoopGuard is a test in the body of a counted loop over a local table that
+// leaves the function with an error (or panics) on one outcome and stays in
+// the loop on the other, and that executes in every iteration:
+//
+//	for _, f := range fields { if len(f) > 0xFFFF { return nil, errTooLong } }
+//
+// Wherever Exit dominates, Cond had the truth value Stay in each of the
+// iterations Frames[0..N-1] (the loop's only non-failing exit is its header
+// test after N complete iterations).
+type LoopGuard struct {
+	Cond   *ssa.BinOp
+	Stay   bool
+	Frames []*Frame
+	Exit   *ssa.BasicBlock
+	At     *ssa.If
+	// Via is the validating helper call the guard was read through (CallGuards);
+	// Exit then is the caller's block entered when the helper reported success.
+	Via *ssa.Call
+}
+
+// LoopGuards lists the guards of the counted loops of s's function.
+func (s *Streamer) LoopGuards() []LoopGuard {
+	var out []LoopGuard
+	for _, hb := range s.Fn.Blocks {
+		if !isLoopHeader(hb) {
+			continue
+		}
+		lp, why := s.loop(hb)
+		if why != "" || lp.N == 0 {
+			continue
+		}
+		exit := hb.Succs[0]
+		if lp.blocks[exit] {
+			exit = hb.Succs[1]
+		}
+		if len(exit.Preds) != 1 {
+			continue
+		}
+		for b := range lp.blocks {
+			if b == hb || !b.Dominates(hb.Preds[lp.back]) {
+				continue
+			}
+			iff, ok := b.Instrs[len(b.Instrs)-1].(*ssa.If)
+			if !ok || len(b.Succs) != 2 {
+				continue
+			}
+			in0, in1 := lp.blocks[b.Succs[0]], lp.blocks[b.Succs[1]]
+			if in0 == in1 {
+				continue
+			}
+			out0 := b.Succs[0]
+			if in0 {
+				out0 = b.Succs[1]
+			}
+			fails := failOnly(out0, lp.blocks, 0)
+			if s.isFail != nil {
+				fails = s.isFail(out0, lp.blocks)
+			}
+			if !fails {
+				continue
+			}
+			cond, neg := iff.Cond, false
+			for {
+				u, isU := cond.(*ssa.UnOp)
+				if !isU || u.Op != token.NOT {
+					break
+				}
+				cond, neg = u.X, !neg
+			}
+			cmp, isB := cond.(*ssa.BinOp)
+			if !isB || !isIntT(cmp.X.Type()) {
+				continue
+			}
+			g := LoopGuard{Cond: cmp, Stay: in0 != neg, Exit: exit, At: iff}
+			for k := 0; k < lp.N; k++ {
+				g.Frames = append(g.Frames, lp.frame(k))
+			}
+			out = append(out, g)
+		}
+	}
+	return out
+}
+
+// boolFail: every path from b (outside the loop) ends in a return of the
+// boolean constant `bad` (the verdict of a predicate helper that found an
+// offending element).
+func boolFail(bad bool) func(*ssa.BasicBlock, map[*ssa.BasicBlock]bool) bool {
+	var rec func(b *ssa.BasicBlock, loop map[*ssa.BasicBlock]bool, d int) bool
+	rec = func(b *ssa.BasicBlock, loop map[*ssa.BasicBlock]bool, d int) bool {
+		if d > 8 || loop[b] {
+			return false
+		}
+		switch x := b.Instrs[len(b.Instrs)-1].(type) {
+		case *ssa.Panic:
+			return true
+		case *ssa.Return:
+			if len(x.Results) != 1 {
+				return false
+			}
+			k, ok := x.Results[0].(*ssa.Const)
+			return ok && k.Value != nil && k.Value.Kind() == constant.Bool && constant.BoolVal(k.Value) == bad
+		}
+		if len(b.Succs) == 0 {
+			return false
+		}
+		for _, sc := range b.Succs {
+			if !rec(sc, loop, d+1) {
+				return false
+			}
+		}
+		return true
+	}
+	return func(b *ssa.BasicBlock, loop map[*ssa.BasicBlock]bool) bool { return rec(b, loop, 0) }
+}
+
+// CallGuards reads the guards a validating helper applies to the caller's
+// values (two-phase validate/build):
+//
+//	if err := checkFieldLengths(a, b, c); err != nil { return nil, err }
+//	if anyTooLong(a, b, c) { return nil, errTooLong }
+//
+// The helper (in-module, returning one error or one bool) is read at its call
+// site: its counted loops over the parameter table are unrolled with the
+// parameters bound to the arguments; every return that reports success must
+// come after each guard loop has run to its end. The facts hold in the caller
+// wherever the block entered on the helper's success verdict dominates.
+func (s *Streamer) CallGuards() []LoopGuard {
+	var out []LoopGuard
+	if s.InModule == nil {
+		return nil
+	}
+	errT := types.Universe.Lookup("error").Type()
+	for _, b := range s.Fn.Blocks {
+		for _, in := range b.Instrs {
+			call, ok := in.(*ssa.Call)
+			if !ok || call.Common().IsInvoke() {
+				continue
+			}
+			h := call.Common().StaticCallee()
+			if h == nil || h.Blocks == nil || !s.InModule(h) || h.Signature.Results().Len() != 1 || call.Referrers() == nil {
+				continue
+			}
+			rt := h.Signature.Results().At(0).Type()
+			isErr := types.Identical(rt, errT)
+			bt, _ := rt.Underlying().(*types.Basic)
+			isBool := bt != nil && bt.Kind() == types.Bool
+			if !isErr && !isBool {
+				continue
+			}
+			for _, normal := range []bool{false, true} {
+				if isErr && normal {
+					break
+				}
+				// blocks of the caller entered when the helper reported success
+				var oks []*ssa.BasicBlock
+				for _, r := range *call.Referrers() {
+					var iff *ssa.If
+					okIdx := -1
+					switch x := r.(type) {
+					case *ssa.BinOp:
+						if !isErr || (x.Op != token.EQL && x.Op != token.NEQ) || x.Referrers() == nil {
+							continue
+						}
+						other := x.Y
+						if other == ssa.Value(call) {
+							other = x.X
+						}
+						if k, isK := other.(*ssa.Const); !isK || k.Value != nil {
+							continue
+						}
+						for _, rr := range *x.Referrers() {
+							if f, isIf := rr.(*ssa.If); isIf {
+								iff = f
+							}
+						}
+						okIdx = 0
+						if x.Op == token.NEQ {
+							okIdx = 1
+						}
+					case *ssa.If:
+						if !isBool {
+							continue
+						}
+						iff, okIdx = x, 1
+						if normal {
+							okIdx = 0
+						}
+					case *ssa.UnOp:
+						if !isBool || x.Op != token.NOT || x.Referrers() == nil {
+							continue
+						}
+						for _, rr := range *x.Referrers() {
+							if f, isIf := rr.(*ssa.If); isIf {
+								iff = f
+							}
+						}
+						okIdx = 0
+						if normal {
+							okIdx = 1
+						}
+					}
+					if iff == nil || len(iff.Block().Succs) != 2 {
+						continue
+					}
+					okb := iff.Block().Succs[okIdx]
+					if len(okb.Preds) == 1 {
+						oks = append(oks, okb)
+					}
+				}
+				if len(oks) == 0 {
+					continue
+				}
+				sub := NewStreamer(h, s.InModule)
+				sub.depth, sub.frame, sub.caller = s.depth+1, ChildFrame(call, h, s.frame), s
+				if isBool {
+					sub.isFail = boolFail(!normal)
+				}
+				gs := sub.LoopGuards()
+				if len(gs) == 0 {
+					continue
+				}
+				// every success return of the helper comes after the guard loops
+				good := true
+				for _, hbk := range h.Blocks {
+					ret, isRet := hbk.Instrs[len(hbk.Instrs)-1].(*ssa.Return)
+					if !isRet {
+						continue
+					}
+					k, isK := ret.Results[0].(*ssa.Const)
+					success := false
+					switch {
+					case isErr:
+						// as in failOnly: only the nil constant reports success
+						success = isK && k.Value == nil
+					case isBool:
+						success = !isK || k.Value == nil || k.Value.Kind() != constant.Bool || constant.BoolVal(k.Value) == normal
+					}
+					if !success {
+						continue
+					}
+					for _, g := range gs {
+						if !g.Exit.Dominates(hbk) {
+							good = false
+						}
+					}
+				}
+				if !good {
+					continue
+				}
+				for _, g := range gs {
+					for _, okb := range oks {
+						g2 := g
+						g2.Exit, g2.Via = okb, call
+						out = append(out, g2)
+					}
+				}
+				break
+			}
+		}
+	}
+	return out
 }
